@@ -89,7 +89,7 @@ class Readout:
         else:
             raise ValueError("Sampling times not specified.")
 
-        if self._times[0] == 0:
+        if np.any(self._times == 0):
             raise ValueError("Readout times should be non-zero values.")
         elif not start_time < self._times[0]:
             raise ValueError("Readout times should be greater than start time.")
